@@ -328,7 +328,9 @@ class ModelError(Exception):
 _BYTES_METHODS = {"find", "rfind", "index", "count", "startswith", "endswith", "split", "rsplit", "strip", "rstrip", "lstrip", "join",
                   "replace", "lower", "upper", "partition", "rpartition", "splitlines"}
 _LIST_METHODS = {"index", "count"}
-_SAFE = {"len": len, "ord": ord, "bytes": bytes, "int": int, "min": min, "max": max, "list": list, "tuple": tuple, "bool": bool, "range": range}
+_SAFE = {"len": len, "ord": ord, "bytes": bytes, "int": int, "min": min, "max": max, "list": list, "tuple": tuple, "bool": bool, "range": range,
+         "any": any, "all": all, "sum": sum, "sorted": sorted, "enumerate": enumerate, "zip": zip, "reversed": reversed, "iter": iter, "bytearray": bytearray,
+         "isinstance": None}
 
 
 class MiniInterp:
@@ -344,13 +346,19 @@ class MiniInterp:
         self.consts = consts or {}
         self.loop_bound = loop_bound
 
+    def _locals_of_func(self):
+        if not hasattr(self, "_lnames"):
+            self._lnames = {x.id for x in ast.walk(self.func) if isinstance(x, ast.Name) and isinstance(x.ctx, ast.Store)}
+        return self._lnames
+
     def call(self, *args):
         names = [a.arg for a in self.func.args.args][1:]
         self.loc = dict(zip(names, args))
         try:
             self._block(self.func.body)
-        except ModelReturn:
-            pass
+        except ModelReturn as r:
+            return r.args[0] if r.args else None
+        return None
 
     # -- expressions
     def ev(self, n):
@@ -363,6 +371,8 @@ class MiniInterp:
                 return self.consts[n.id]
             if n.id in ("True", "False", "None"):
                 return {"True": True, "False": False, "None": None}[n.id]
+            if n.id in self._locals_of_func():
+                raise ModelError(f"UnboundLocalError: {n.id}")
             raise AnalysisError(f"model: unknown name {n.id}")
         if isinstance(n, ast.Attribute):
             if isinstance(n.value, ast.Name) and n.value.id == "self":
@@ -414,6 +424,13 @@ class MiniInterp:
             return True
         if isinstance(n, ast.IfExp):
             return self.ev(n.body) if self.ev(n.test) else self.ev(n.orelse)
+        if isinstance(n, (ast.ListComp, ast.GeneratorExp)) and len(n.generators) == 1 and not n.generators[0].is_async:
+            if isinstance(n, ast.GeneratorExp):
+                return self._lazy(n)            # consumed lazily by any()/all()/join()...: one-shot iterables behave as at run time
+            saved = dict(self.loc)
+            out = list(self._lazy(n))
+            self.loc = saved
+            return out
         if isinstance(n, ast.Subscript):
             v = self.ev(n.value)
             try:
@@ -439,7 +456,9 @@ class MiniInterp:
                 return self.hooks[f.attr](*args)
             if n.keywords:
                 raise AnalysisError(f"model: keyword call {src(n)[:50]}")
-            if isinstance(f, ast.Name) and f.id in _SAFE:
+            if isinstance(f, ast.Name) and f.id in ("map", "filter") and len(n.args) == 2 and isinstance(n.args[0], ast.Name) and _SAFE.get(n.args[0].id):
+                return {"map": map, "filter": filter}[f.id](_SAFE[n.args[0].id], self.ev(n.args[1]))
+            if isinstance(f, ast.Name) and _SAFE.get(f.id) is not None:
                 try:
                     return _SAFE[f.id](*[self.ev(a) for a in n.args])
                 except (TypeError, ValueError) as e:
@@ -459,6 +478,17 @@ class MiniInterp:
                         raise ModelError(f"IndexError: {e}")
             raise AnalysisError(f"model: call {src(n)[:60]} not in the whitelist")
         raise AnalysisError(f"model: expression {type(n).__name__} not in the whitelist")
+
+    def _lazy(self, n):
+        gen = n.generators[0]
+        try:
+            it = iter(self.ev(gen.iter))
+        except TypeError as e:
+            raise ModelError(f"TypeError: {e}")
+        for x in it:
+            self._assign(gen.target, x)
+            if all(self.ev(c) for c in gen.ifs):
+                yield self.ev(n.elt)
 
     # -- statements
     def _assign(self, t, v):
@@ -496,7 +526,11 @@ class MiniInterp:
         elif isinstance(st, ast.For):
             n = 0
             broke = False
-            for x in list(self.ev(st.iter)):
+            try:
+                it = iter(self.ev(st.iter))
+            except TypeError as e:
+                raise ModelError(f"TypeError: {e}")
+            for x in it:
                 n += 1
                 if n > self.loop_bound:
                     raise AnalysisError("model: loop bound")
@@ -523,7 +557,7 @@ class MiniInterp:
                 except ModelContinue:
                     continue
         elif isinstance(st, ast.Return):
-            raise ModelReturn()
+            raise ModelReturn(self.ev(st.value) if st.value is not None else None)
         elif isinstance(st, ast.Break):
             raise ModelBreak()
         elif isinstance(st, ast.Continue):
